@@ -53,11 +53,11 @@ let eval inp obs =
   let k, kinds = (match s.extra with k :: r -> int_of_string k, r | [] -> 0, []) in
   let res = run_reference s in
   let all_ok = all_codes_zero res in
-  let full = block_tokens res in
+  let full = block_tokens s res in
   let sub_m = List.fold_left (fun acc t -> match String.split_on_char ':' t with
       | ["8"; m; _] -> Some (int_of_string m) | _ -> acc) None kinds in
   let ssub = (match sub_m with Some m -> Some (truncate s m) | None -> None) in
-  let sub = (match ssub with Some s' -> block_tokens (run_reference s') | None -> []) in
+  let sub = (match ssub with Some s' -> block_tokens s' (run_reference s') | None -> []) in
   let m = List.concat (List.filteri (fun i _ -> i < k) (List.map (fun t ->
       match String.split_on_char ':' t with
       | ["8"; _; _] -> ["S"; "0"] @ sub
